@@ -220,42 +220,47 @@ fn main() {
         replay_and_exit("C06", p, replay);
     }
     let report = Report::new("C06", "model_checking", &args);
-    let (depth, max_k, deviations): (usize, usize, usize) = match args.tier {
-        Tier::Quick => (2, 3, 1),
-        Tier::Thorough => (3, 4, 2),
+    // two passes per tier: (depth, max state sets, deviation bound)
+    // templates that create power events (power-level changes, ban, kick, join-rule changes):
+    // the ones whose relative order the tie-breaking decides
+    let power_templates: Vec<usize> = vec![0, 1, 2, 3, 6, 7, 8];
+    let all_templates: Vec<usize> = (0..TEMPLATES.len()).collect();
+    let passes: Vec<(usize, usize, usize, Vec<usize>)> = match args.tier {
+        Tier::Quick => vec![(2, 3, 1, all_templates.clone()), (1, 3, 2, all_templates.clone()), (3, 2, 1, power_templates.clone())],
+        Tier::Thorough => vec![(3, 3, 1, all_templates.clone()), (2, 4, 2, all_templates.clone()), (4, 2, 1, power_templates.clone())],
     };
-    let templates: Vec<usize> = (0..TEMPLATES.len()).collect();
     report.set_rule(&format!(
-        "inputs: every room history reachable by appending <= {depth} events (14 templates x prev subsets x timestamp equal/later) to base rooms A and B \
-         (room version 11), and every subset of 2..={max_k} nodes containing the newest node. For each input: repeat call; every permutation of the \
-         state-set list with the auth-chain list permuted jointly, left in place and reversed; 1-3 identical copies of one set must come back \
-         unchanged; deviation-bounded DFS over the iteration order of every hash container resolve iterates (hook verif_order): all-default run, \
-         then every single deviation at every choice point ({deviations} deviation(s) per execution; all n! orders for n<=4, else reverse + adjacent \
-         swaps + rotations). Oracle: result == all-default result. state = one history; transition = one real resolve call under a script; \
-         non-trivial = input with conflicting state sets"
+        "passes (history depth, max state sets, deviation bound, templates) = {passes:?}. inputs: every room history reachable by appending <= depth events \
+         (14 templates x prev subsets x timestamp equal/later) to base rooms A and B (room version 11), and every subset of 2..=max nodes containing \
+         the newest node. For each input: repeat call; every permutation of the state-set list with the auth-chain list permuted jointly, left in \
+         place and reversed; 1-3 identical copies of one set must come back unchanged; deviation-bounded DFS over the iteration order of every hash \
+         container resolve iterates (hook verif_order): all-default run, then every combination of <= bound deviations over the choice points \
+         (all n! orders for n<=4, else reverse + adjacent swaps + rotations). Oracle: result == all-default result. state = one history; \
+         transition = one real resolve call under a script; non-trivial = input with conflicting state sets"
     ));
     report.assume("threads/repeat runs can only differ through RandomState-seeded iteration order (resolve shares no state between calls), so enumerating iteration orders discharges the schedules quantifier (DESIGN §3 C06)");
     report.assume("containers with more than 4 elements are permuted by reverse / adjacent swaps / rotations only");
     report.require_outcomes("input", 1);
     report.require_outcomes("choice-points", 2);
 
-    let mut shards: Vec<(bool, Action)> = vec![];
-    for with_pl in [true, false] {
-        let h = History::base(11, with_pl);
-        for a in h.actions(&templates, &[1, 2]) {
-            shards.push((with_pl, a));
+    for (depth, max_k, deviations, templates) in passes.iter().cloned() {
+        let mut shards: Vec<(bool, Action)> = vec![];
+        for with_pl in [true, false] {
+            let h = History::base(11, with_pl);
+            for a in h.actions(&templates, &[1, 2]) {
+                shards.push((with_pl, a));
+            }
         }
+        let ex = Explorer { report: &report, templates: templates.clone(), depth, max_k, deviations };
+        par_shards(&report, shards.len(), |i, t| {
+            let (with_pl, a) = shards[i];
+            let h = History::base(11, with_pl);
+            if let Some(next) = h.apply(a) {
+                ex.visit(&next, t);
+            }
+        });
     }
-    let ex = Explorer { report: &report, templates, depth, max_k, deviations };
-    par_shards(&report, shards.len(), |i, t| {
-        let (with_pl, a) = shards[i];
-        let h = History::base(11, with_pl);
-        if let Some(next) = h.apply(a) {
-            ex.visit(&next, t);
-        }
-    });
-    report.set("depth", json!(depth));
-    report.set("max_state_sets", json!(max_k));
-    report.set("deviation_bound_completed", json!(deviations));
+    report.set("passes_depth_sets_deviations_templates", json!(passes));
+    report.set("deviation_bound_completed", json!(passes.iter().map(|p| p.2).max()));
     report.finish()
 }
